@@ -8,6 +8,7 @@
 -/
 import Grenad.Proofs.MergeProofs
 import Grenad.Proofs.Wave3Sorter
+import Grenad.Proofs.BinHeapProofs
 
 namespace Grenad.Props.C06
 
@@ -425,3 +426,175 @@ open Grenad.Props.C06
 #print axioms C06_heap_distinct
 #print axioms C06_heap_shape_irrelevant_run
 end AxiomsWave3
+
+/-!
+  ## The binary heap itself (reduction of the trusted base)
+
+  `Grenad.Model.Merger` replaces `std::collections::BinaryHeap` by its specification (a list with
+  `heapMin` / `heapPop`).  `Grenad.Model.BinHeap` models the data structure — the backing array,
+  `push` = append + `sift_up`, `pop` = take the last item, exchange it with the root,
+  `sift_down_to_bottom` + `sift_up` (the std algorithm), `peek` = `data[0]` — and `MergerH`, the
+  merger of `src/merger.rs` over it.  Here: the binary heap implements the specification, and
+  `MergerH.runH` has the output and the calls of `Merger.run`, so every C06 theorem holds for it.
+  Helper lemmas: Grenad/Proofs/BinHeapProofs.lean (namespace `Grenad.BinHeapP`).
+-/
+namespace Grenad.Props.C06
+
+set_option autoImplicit false
+
+open Grenad Grenad.Merger Grenad.MergerH Grenad.Wave3
+
+/-! ### The data structure against its specification -/
+
+/-- `push` keeps the heap order and adds exactly the pushed element (any heap, any element). -/
+theorem C06_binary_heap_push (h : BinHeap) (x : MSrc) (ho : BinHeapP.HeapOrdered h) :
+    BinHeapP.HeapOrdered (h.push x) ∧ (h.push x).toList.Perm (x :: h.toList) :=
+  ⟨BinHeapP.push_ordered ho x, BinHeapP.push_perm h x⟩
+
+/-- `pop` on an ordered heap (no distinctness needed): `none` exactly on the empty heap; otherwise
+    the root, which pops no later than every element, and an ordered heap holding the others. -/
+theorem C06_binary_heap_pop_ordered (h : BinHeap) (ho : BinHeapP.HeapOrdered h) :
+    (h.pop = none ↔ h.toList = []) ∧
+    ∀ m h', h.pop = some (m, h') →
+      h.peek = some m ∧ h.toList.Perm (m :: h'.toList) ∧ BinHeapP.HeapOrdered h' ∧
+      ∀ x ∈ h.toList, x.before m = false := by
+  refine ⟨BinHeapP.pop_eq_none, fun m h' hp => ?_⟩
+  obtain ⟨h1, h2, h3⟩ := BinHeapP.pop_some ho hp
+  exact ⟨h1, h2, h3, (BinHeapP.peek_le ho h1).2⟩
+
+/-- **`peek` = `heapMin`** on an ordered heap with pairwise distinct `(key, idx)` pairs. -/
+theorem C06_binary_heap_peek (h : BinHeap) (ho : BinHeapP.HeapOrdered h)
+    (hne : h.toList.Pairwise (fun a b => (a.key, a.idx) ≠ (b.key, b.idx))) :
+    h.peek = heapMin h.toList :=
+  BinHeapP.peek_eq_heapMin ho ((keyIdxNe_iff _).mpr hne)
+
+/-- **`pop` = `heapPop`** on an ordered heap with pairwise distinct `(key, idx)` pairs: both
+    return `none`, or `pop` returns the very element `heapPop` selects on the element list and an
+    ordered heap whose elements are a permutation of `heapPop`'s remainder. -/
+theorem C06_binary_heap_pop (h : BinHeap) (ho : BinHeapP.HeapOrdered h)
+    (hne : h.toList.Pairwise (fun a b => (a.key, a.idx) ≠ (b.key, b.idx))) :
+    (h.pop = none ∧ heapPop h.toList = none) ∨
+    ∃ m h' r, h.pop = some (m, h') ∧ heapPop h.toList = some (m, r) ∧ h'.toList.Perm r ∧
+      BinHeapP.HeapOrdered h' := by
+  rcases BinHeapP.binheap_pop_spec ho ((keyIdxNe_iff _).mpr hne) with h1 | ⟨m, h', r, h1, h2, h3, h4, -⟩
+  · exact Or.inl h1
+  · exact Or.inr ⟨m, h', r, h1, h2, h3, h4⟩
+
+/-- The distinctness hypothesis cannot be dropped: with two entries carrying the same
+    `(key, idx)` pair the binary heap and `heapPop` may select different ones. -/
+example : ∃ h : BinHeap, BinHeapP.HeapOrdered h ∧
+    (h.pop).map (·.1) ≠ (heapPop h.toList).map (·.1) := by
+  refine ⟨(BinHeap.empty.push ⟨0, [([1], [10])]⟩).push ⟨0, [([1], [11])]⟩, ?_, by decide⟩
+  exact BinHeapP.push_ordered (BinHeapP.push_ordered BinHeapP.empty_ordered _) _
+
+/-! ### The merger on the binary heap -/
+
+/-- One step: `MergerIter::next` on the binary heap against `Merger.next` on a list heap holding
+    the same entries (pairwise distinct `(key, idx)` pairs): same result, same calls, the new
+    binary heap is ordered and again holds the entries of the new list heap. -/
+theorem C06_binary_heap_step (mf : MergeFn) (mh : MergerH) (m : Merger)
+    (ho : BinHeapP.HeapOrdered mh.heap)
+    (hne : m.heap.Pairwise (fun a b => (a.key, a.idx) ≠ (b.key, b.idx)))
+    (hp : mh.heap.toList.Perm m.heap) (hc : mh.calls = m.calls) :
+    (nextH mf mh).2 = (next mf m).2 ∧
+    BinHeapP.HeapOrdered (nextH mf mh).1.heap ∧
+    (nextH mf mh).1.heap.toList.Perm (next mf m).1.heap ∧
+    (nextH mf mh).1.calls = (next mf m).1.calls :=
+  BinHeapP.nextH_sim mf mh m ho ((keyIdxNe_iff _).mpr hne) hp hc
+
+/-- **C06_binary_heap_refines.**  For ALL sources (sorted or not, empty or not) and every merge
+    function (failing or not), the merger running on the array-based binary heap returns the
+    output of `Merger.run` and records the same merge calls.  (Simulation: the binary heap's
+    element list is always a permutation of the list-model heap, whose entries have pairwise
+    distinct source indices: `C06_heap_distinct`, `C06_heap_shape_irrelevant`.) -/
+theorem C06_binary_heap_refines (mf : MergeFn) (sources : List (List Entry)) :
+    (runH mf sources).1 = (run mf sources).1 ∧
+    (runH mf sources).2.calls = (run mf sources).2.calls :=
+  BinHeapP.runH_eq_run mf sources
+
+/-- `C06_run` on the binary heap: output and calls for an arbitrary merge function. -/
+theorem C06_run_binary_heap (mf : MergeFn) (sources : List (List Entry))
+    (hasc : ∀ s ∈ sources, StrictAsc s) :
+    (runH mf sources).1 = mergeAll mf (Spec.group sources.flatten) ∧
+    (runH mf sources).2.calls.reverse = callsSpec mf (Spec.group sources.flatten) := by
+  rw [(C06_binary_heap_refines mf sources).1, (C06_binary_heap_refines mf sources).2]
+  exact C06_run mf sources hasc
+
+/-- **C06_merge_binary_heap.**  The k-way merge on the binary heap equals the grouped union. -/
+theorem C06_merge_binary_heap (mf' : Bytes → List Bytes → Bytes) (sources : List (List Entry))
+    (hasc : ∀ s ∈ sources, StrictAsc s) :
+    (runH (total mf') sources).1 = some (Spec.mergeSpec mf' sources) := by
+  rw [(C06_binary_heap_refines _ sources).1]
+  exact C06_merge mf' sources hasc
+
+/-- `C06_calls` on the binary heap. -/
+theorem C06_calls_binary_heap (mf' : Bytes → List Bytes → Bytes) (sources : List (List Entry))
+    (hasc : ∀ s ∈ sources, StrictAsc s) :
+    (runH (total mf') sources).2.calls.reverse = Spec.group sources.flatten := by
+  rw [(C06_binary_heap_refines _ sources).2]
+  exact C06_calls mf' sources hasc
+
+/-- `C06_merge_err` on the binary heap. -/
+theorem C06_merge_err_binary_heap (mf : MergeFn) (sources : List (List Entry))
+    (hasc : ∀ s ∈ sources, StrictAsc s) :
+    (runH mf sources).1 = none ↔ ∃ g ∈ Spec.group sources.flatten, mf g.1 g.2 = none := by
+  rw [(C06_binary_heap_refines mf sources).1]
+  exact C06_merge_err mf sources hasc
+
+/-! ### Concrete instances (binary heap) -/
+
+/-- A concrete merge evaluated on the binary heap (four sources, one empty). -/
+example : (runH (total exConcat) exSources).1 =
+    some [([1], [10, 11]), ([2], [20]), ([3], [30, 31]), ([4, 0], [40])] := by decide
+
+example : (runH (total exConcat) exSources).2.calls.reverse =
+    [([1], [[10], [11]]), ([2], [[20]]), ([3], [[30], [31]]), ([4, 0], [[40]])] := by decide
+
+/-- The same through the theorem. -/
+example : (runH (total exConcat) exSources).1 =
+    some [([1], [10, 11]), ([2], [20]), ([3], [30, 31]), ([4, 0], [40])] := by
+  rw [C06_merge_binary_heap exConcat exSources exAsc]; decide
+
+/-- Unsorted sources with a failing merge function: still the same as `Merger.run`. -/
+example : (runH exFail [[([3], [1]), ([1], [2])], [([3], [4])]]).1 =
+    (run exFail [[([3], [1]), ([1], [2])], [([3], [4])]]).1 :=
+  (C06_binary_heap_refines _ _).1
+
+/-- Seven pushes (descending keys, so every push sifts up to the root), then pops: the heap is
+    ordered throughout and pops in `(key, idx)` order. -/
+def exBinHeap : BinHeap :=
+  [6, 5, 4, 3, 2, 1, 0].foldl (fun h (i : Nat) => h.push ⟨i, [([UInt8.ofNat i], [])]⟩) BinHeap.empty
+
+example : exBinHeap.toList.map (·.idx) = [0, 3, 1, 6, 4, 5, 2] := by decide
+
+example : BinHeapP.HeapOrdered exBinHeap := by
+  unfold exBinHeap
+  simp only [List.foldl_cons, List.foldl_nil]
+  repeat apply BinHeapP.push_ordered
+  exact BinHeapP.empty_ordered
+
+example : exBinHeap.pop.map (fun p => (p.1.idx, p.2.toList.map (·.idx))) =
+    some (0, [1, 3, 2, 6, 4, 5]) := by decide
+
+example : exBinHeap.peek = heapMin exBinHeap.toList :=
+  C06_binary_heap_peek _ (by
+    unfold exBinHeap
+    simp only [List.foldl_cons, List.foldl_nil]
+    repeat apply BinHeapP.push_ordered
+    exact BinHeapP.empty_ordered) (by decide)
+
+end Grenad.Props.C06
+
+section AxiomsBinHeap
+open Grenad.Props.C06
+#print axioms C06_binary_heap_push
+#print axioms C06_binary_heap_pop_ordered
+#print axioms C06_binary_heap_peek
+#print axioms C06_binary_heap_pop
+#print axioms C06_binary_heap_step
+#print axioms C06_binary_heap_refines
+#print axioms C06_run_binary_heap
+#print axioms C06_merge_binary_heap
+#print axioms C06_calls_binary_heap
+#print axioms C06_merge_err_binary_heap
+end AxiomsBinHeap
